@@ -100,7 +100,7 @@ func (w *c14World) gate(op string) (string, bool) {
 func c14NewWorld(lk lock.Lock) *c14World {
 	return &c14World{lk: lk, events: make(chan c14Event, 4096), known: map[string]bool{},
 		holds: map[string]chan struct{}{}, ttlWait: map[string]chan struct{}{}, ttlAt: map[string]time.Time{}, byID: map[string]*c14Sess{}, byKey: map[string]*c14Sess{},
-		timeout: 3 * time.Second}
+		timeout: HxScale(3 * time.Second)}
 }
 
 // handler runs inside the lock package's goroutines.
@@ -480,7 +480,7 @@ func (w *c14World) cleanup() {
 	for _, s := range w.sess {
 		keys[s.key] = true
 	}
-	deadline := time.Now().Add(2 * time.Second)
+	deadline := time.Now().Add(HxScale(2 * time.Second))
 	for {
 		busy := false
 		for k := range keys {
@@ -823,12 +823,12 @@ func c14Gateway(f []string, install func(*c14World)) string {
 	}
 	gw := c14Rig.GW
 	w := c14NewWorld(c14Rig.Zeus.GetHydra().GetLocker())
-	w.timeout = 4 * time.Second
+	w.timeout = HxScale(4 * time.Second)
 	install(w)
 	switch f[0] {
 	case "gwttl":
 		// gwttl T1 T2 …: one Lock RPC per TTL (distinct keys), all watchdogs run side by side; each
-		// is stopped at the lock.ttl hook when its timer fires.  eff = observed life time in whole
+		// is stopped at the lock.ttl hook when its timer fires.  timeout = observed life time (the word makes a mismatch on this line timing-shaped for the re-check) in whole
 		// seconds (rounded down: a timer only fires late), `gt3000` = still held after 3 s.
 		if len(f) < 2 {
 			return "bad-op"
@@ -850,20 +850,20 @@ func c14Gateway(f []string, install func(*c14World)) string {
 			key := fmt.Sprintf("gwttl-%d-%d-%d", i, ttl, time.Now().UnixNano())
 			resp, err := gw.Lock(context.Background(), &hydrapb.LockRequest{Key: key, TTL: ttl})
 			if err != nil || resp == nil {
-				o.res = "lock-error"
+				o.res = "lock-err"
 				if ids, _, _ := lock.VerifSnapshot(w.lk, key); len(ids) > 0 {
-					o.res = "lock-error-residual"
+					o.res = "lock-err-residual"
 				}
 				continue
 			}
 			acq, ok := w.waitForRaw("lock.acq", resp.LockID)
 			if !ok {
-				o.res = "no-acq"
+				o.res = "timeout-no-acq"
 				continue
 			}
 			o.id, o.at = acq.id, acq.at
 		}
-		deadline := time.Now().Add(3 * time.Second)
+		deadline := time.Now().Add(HxScale(3 * time.Second))
 		for {
 			pending := false
 			w.mu.Lock()
@@ -872,7 +872,7 @@ func c14Gateway(f []string, install func(*c14World)) string {
 					continue
 				}
 				if at, ok := w.ttlAt[o.id]; ok {
-					o.res = fmt.Sprintf("eff=%d", at.Sub(o.at).Milliseconds()/1000*1000)
+					o.res = fmt.Sprintf("timeout=%d", at.Sub(o.at).Milliseconds()/1000*1000)
 				} else {
 					pending = true
 				}
@@ -886,7 +886,7 @@ func c14Gateway(f []string, install func(*c14World)) string {
 		out := "gwttl"
 		for _, o := range all {
 			if o.res == "" {
-				o.res = "eff=gt3000"
+				o.res = "timeout=gt3000"
 			}
 			out += " " + o.txt + ":" + o.res
 		}
@@ -895,10 +895,11 @@ func c14Gateway(f []string, install func(*c14World)) string {
 		key := fmt.Sprintf("gwcancel-%d", time.Now().UnixNano())
 		first, err := gw.Lock(context.Background(), &hydrapb.LockRequest{Key: key, TTL: 60000})
 		if err != nil {
-			return "gwcancel lock-error"
+			return "gwcancel lock-err"
 		}
 		w.waitForRaw("lock.acq", first.LockID)
 		ctx, cancel := context.WithCancel(context.Background())
+		defer cancel()
 		type res struct {
 			id  string
 			err error
@@ -914,13 +915,13 @@ func c14Gateway(f []string, install func(*c14World)) string {
 		}()
 		enq, ok := w.wait(func(e c14Event) bool { return e.name == "lock.enq" && e.raw != first.LockID })
 		if !ok {
-			return "gwcancel no-enq"
+			return "gwcancel timeout no-enq"
 		}
 		w.waitFor("lock.select", enq.id)
 		cancel()
 		// a cancellable wait would leave through the ctx.Done branch now
 		kept := "kept"
-		if w.quiet(func(e c14Event) bool { return e.name == "lock.cancel" && e.id == enq.id }, 300*time.Millisecond) {
+		if w.quiet(func(e c14Event) bool { return e.name == "lock.cancel" && e.id == enq.id }, HxScale(300*time.Millisecond)) {
 			kept = "removed"
 		}
 		_, _ = gw.Unlock(context.Background(), &hydrapb.UnlockRequest{Key: key, LockID: first.LockID})
@@ -931,7 +932,7 @@ func c14Gateway(f []string, install func(*c14World)) string {
 				out = "acq"
 				_, _ = gw.Unlock(context.Background(), &hydrapb.UnlockRequest{Key: key, LockID: r.id})
 			}
-		case <-time.After(3 * time.Second):
+		case <-time.After(HxScale(3 * time.Second)):
 			out = "timeout"
 		}
 		return "gwcancel " + kept + " " + out
@@ -1020,7 +1021,7 @@ func genC14s(rng *rand.Rand, tier string, w *bufio.Writer) {
 						cancel()
 						ctx, cancel = context.WithTimeout(context.Background(), time.Duration(200+lr.Intn(2500))*time.Microsecond)
 					}
-					ttl := 5 * time.Second
+					ttl := time.Minute
 					short := lr.Intn(3) == 0
 					if short {
 						ttl = time.Duration(500+lr.Intn(2000)) * time.Microsecond
@@ -1052,10 +1053,10 @@ func genC14s(rng *rand.Rand, tier string, w *bufio.Writer) {
 		hung := false
 		select {
 		case <-done:
-		case <-time.After(20 * time.Second):
+		case <-time.After(HxScale(60 * time.Second)): // (the generator is not re-run: the window itself is generous)
 			hung = true
 		}
-		time.Sleep(5 * time.Millisecond) // outstanding short-TTL watchdogs
+		time.Sleep(HxScale(5 * time.Millisecond)) // outstanding short-TTL watchdogs
 		verifhook.SetHandler(nil)
 		fmt.Fprintf(w, "case %d\n", r)
 		mu.Lock()
@@ -1066,6 +1067,9 @@ func genC14s(rng *rand.Rand, tier string, w *bufio.Writer) {
 			fmt.Fprintln(w, "hang")
 		}
 		mu.Unlock()
+		if hung {
+			return // one hang is the verdict: do not spend the window again in every later round
+		}
 	}
 }
 
